@@ -11,6 +11,8 @@ P = {
  "C03": dict(tech="runtime monitor: list model with capacity, checked after every op of exhaustive short and random sawtooth histories; raw slice length read through VerifDump",
              text="Exploration: all histories of length <=3 / <=4 over 13 growth/shrink symbols for k in 1..3 plus 20k / 1M random sawtooth histories (k in 1..6, and no/zero/negative capacity argument); "
                   "Len<=k, Cap/Avail/IsFull arithmetic, raw length and kept-earliest content compared with the model after every op.", ref="2 C03"),
+ "C04": dict(tech="runtime monitor: round-trip oracle against the tree description (reference Unmarshal shape, node-by-node walk of the reconstruction, second Unmarshal, IsEqual)",
+             text="Exploration: 25k / 2M random trees of all kinds with empty stacks, chains, label-like strings, nil leaves and Conditions holding primitives, Stacks or Conditions; four assertions per tree and per Marshal calling convention.", ref="2 C04"),
  "C05": dict(tech="runtime monitor: metamorphic oracle - independently rebuilt copies must compare equal, every single-point mutant must compare unequal, in both directions",
              text="Exploration: 6k / 400k random tree descriptions with composite leaves (pointers of depth 1-3, slices, arrays, maps, structs); each instantiated twice and once per single-point mutation (about 50k / 3M mutants), four directed IsEqual calls per mutant, every call under recover.", ref="2 C05"),
  "C06": dict(tech="runtime monitor: Condition state machine (acceptance rules, validity rule, rendering grammar) compared after every setter call of exhaustive and random histories",
@@ -34,6 +36,8 @@ P = {
  "C15": dict(tech="runtime monitor: exhaustive product of source/destination shapes with recursive VerifDump before/after diff",
              text="Exploration, exhaustive over the stated finite product (29k cases: lengths 0..6 x 0..6, capacity none/1..8, LIFO/FIFO, nil elements, 11 destination forms); "
                   "success implies dst0++src, capacity shortage and inert destinations imply false and an unchanged destination, the source never changes.", ref="2 C15"),
+ "C16": dict(tech="runtime monitor: grammar-based hostile []any generator plus mutated Unmarshal outputs, four Marshal calling modes under recover, post-call observer battery and label/growth rules",
+             text="Exploration: 60k / 5M generated inputs (malformed CONDITION rows, empty and chained envelopes, typed nils, non-operators, ready-made and zero instances, mis-cased and near-miss labels), each marshalled into zero and live receivers both ways.", ref="2 C16"),
  "C17": dict(tech="runtime monitor: reflection-enumerated methods and go/parser-cross-checked package functions invoked on zero/freed receivers, inertness oracle",
              text="Exploration: every exported method of Stack/Condition/Auxiliary x argument variants x {zero, freed, Init-only} receivers (1.3k calls), every exported package function x awkward arguments, Free/Reset lifecycle cases and random call sequences on dead receivers; "
                   "a function missing from the table or a method unreachable by reflection makes the run inconclusive.", ref="2 C17"),
